@@ -189,21 +189,22 @@ CLAIMED['C19'] = {
     'technique': 'Coq proof (chunk calculus over the writer monad, 256-character sweeps for the escape function; inversion of the pipeline run into per-segment views; depth-first key for the error iterator) + extracted-model correspondence + oracle',
 }
 CLAIMED['C12'] = {
-    'text': 'PARTIAL. Theorem C12_reader_independent_partial: for every document (15 header fields + any body of segments writable with both '
-            'delimiter triples), any two admissible triples, any two runs of CR/LF after the terminators and any two chunkings of the '
-            'input, the reader model returns the same version, the same segments (ISA16 apart) and the same errors at the same segment '
-            'positions, and completes; with C12_segment_delims_irrelevant and C12_line_breaks_irrelevant. Hypothesis: the control '
-            'elements the reader interprets carry one component. Downstream layers consume parsed segments: '
-            'C12_validation_delims_irrelevant (segment validation: results, codes, texts and quoted values) and '
-            'C12_walker_delims_irrelevant (node found, loop events, counters, errors) hold for any two delimiter triples under a '
-            'computable hypothesis (no composite value where the map expects a simple element), shown necessary by '
-            'C12_validation_needs_simple_positions; the acknowledgement bodies are functions of the error tree (C05). The end-to-end '
-            'composition is not a theorem but compared on the implementation: corpus and generated documents re-encoded with 8 '
-            'triples x 5 line conventions, verdict, every handler call and the acknowledgement text compared.',
+    'text': 'PARTIAL (HTML / XML sinks outside). End to end: C12_pipeline_independent — for every environment, clock and document (15 '
+            'header fields + any body of segments writable with both delimiter triples), any two admissible triples and any two '
+            'line-break conventions, the model of x12n_document with the acknowledgement sink returns the SAME verdict, writes the '
+            'SAME 997 / 999 text and makes the same handler calls up to the delimiters carried by the segment objects, provided the '
+            'computable layer hypotheses hold along the run (doc_layers_ok; implied by single-valued elements: '
+            'C12_driver_independent_plain) and the ISA validates alike under both triples (ISA16 is validated as data against the '
+            'character set). Built from C12_reader_independent_partial (any chunking; same segments, same reader errors at the same '
+            'positions), C12_validation_delims_irrelevant, C12_walker_delims_irrelevant, the commutation of all 13 handler calls with '
+            'rewriting stored segments, and the C05 acknowledgement theorems; every hypothesis has a machine-checked counterexample. '
+            'The check compares complete runs of the implementation on corpus and generated documents re-encoded with 8 triples x 5 '
+            'line conventions (verdict, every handler call, acknowledgement text) and chunk-boundary documents.',
     'design_ref': 'DESIGN.md §6 C12, §11',
-    'note': 'Partial: theorems cover reader, segment validation and walker separately. Trusted: Coq kernel, hand transcriptions '
-            '(tied by reader / segvalid / walk correspondence), Spec/C12_spec.v, Spec/C12b_spec.v, extraction.',
-    'technique': 'Coq proof (re-uses the C01 chunk-independence and round-trip theorems; induction over the body with the reader state generalised; relational simulation over the walker monad) + differential re-encoding runs',
+    'note': 'Trusted: Coq kernel, hand transcriptions of reader / segment / raw file / walker / validation / driver / handler / '
+            'visitors (tied by reader, segvalid, walk, document and pipeline correspondence), Spec/C12_spec.v, C12b_spec.v, '
+            'C12_doc_spec.v, extraction.',
+    'technique': 'Coq proof (C01 chunk-independence and round-trip theorems reused; relational simulation over the walker monad and over Driver.step; handler API commutes with segment rewriting) + differential re-encoding runs',
 }
 CLAIMED['C08'] = {
     'text': 'Theorems (Props/C08.v): the XML text written by the model of x12xml_simple/XMLWriter for ANY sequence of located segments '
